@@ -2,3 +2,562 @@
 From BVA Require Import Base.Prelude Base.Result Base.Words Base.Limbs.
 From BVA Require Import Model.Core Model.Ops Model.Arith Model.Conv Model.Auto Spec.Spec Proofs.Common.
 From Coq Require Import ZifyBool ZifyN ZifyNat.
+From BVA Require Import Spec.Prop.
+
+Local Ltac Zify.zify_post_hook ::= Z.div_mod_to_equations.
+
+Definition bytes_ok (l : list N) : Prop := Forall (fun b => b < 256) l.
+
+(* ------------------------------------------------------------------ error paths *)
+
+Lemma f_from_bytes_overflow w n bytes e :
+  w * n < 8 * lenw bytes -> f_from_bytes w n bytes e = Err ECap.
+Proof.
+  intros H. unfold f_from_bytes.
+  assert (w * n <? lenw bytes * 8 = true) as -> by (apply N.ltb_lt; lia). reflexivity.
+Qed.
+
+Lemma f_read_overflow w n reader len e : w * n < len -> f_read w n reader len e = Err EInvalidInput.
+Proof.
+  intros H. unfold f_read. apply N.ltb_lt in H. rewrite H. reflexivity.
+Qed.
+
+Lemma f_read_short w n reader len e :
+  len <= w * n -> lenw reader < (len + 7) / 8 -> f_read w n reader len e = Err EEof.
+Proof.
+  intros H1 H2. unfold f_read.
+  assert (w * n <? len = false) as -> by (apply N.ltb_ge; assumption).
+  apply N.ltb_lt in H2. rewrite H2. reflexivity.
+Qed.
+
+Lemma d_read_short reader len e : lenw reader < (len + 7) / 8 -> d_read reader len e = Err EEof.
+Proof.
+  intros H. unfold d_read. apply N.ltb_lt in H. rewrite H. reflexivity.
+Qed.
+
+(* ------------------------------------------------------------------ powers of 256 *)
+
+Lemma pow256 x : 256 ^ x = 2 ^ (8 * x).
+Proof. rewrite N.pow_mul_r. reflexivity. Qed.
+
+Lemma pow256_pos x : 0 < 256 ^ x.
+Proof. rewrite pow256. apply pow2_pos. Qed.
+
+Lemma pow256_succ x : 256 ^ (x + 1) = 256 * 256 ^ x.
+Proof. rewrite N.add_1_r. apply N.pow_succ_r'. Qed.
+
+(* ------------------------------------------------------------------ val_of_bytes_le *)
+
+Lemma val_app l1 l2 :
+  val_of_bytes_le (l1 ++ l2) = val_of_bytes_le l1 + 256 ^ lenw l1 * val_of_bytes_le l2.
+Proof.
+  induction l1 as [|b r IH].
+  - cbn [app val_of_bytes_le]. rewrite lenw_nil. change (256 ^ 0) with 1. lia.
+  - cbn [app val_of_bytes_le]. rewrite IH, lenw_cons, pow256_succ. lia.
+Qed.
+
+Lemma val_lt l : bytes_ok l -> val_of_bytes_le l < 256 ^ lenw l.
+Proof.
+  induction 1 as [|b r Hb Hr IH].
+  - cbn. lia.
+  - cbn [val_of_bytes_le]. rewrite lenw_cons, pow256_succ. lia.
+Qed.
+
+(* the k low bytes of x *)
+Lemma val_bytes_of x k :
+  val_of_bytes_le (map (fun j => trunc 8 (N.shiftr x (8 * j))) (nrange k)) = x mod 256 ^ k.
+Proof.
+  induction k as [|k IH] using N.peano_ind.
+  - rewrite nrange_0. cbn [map val_of_bytes_le]. change (256 ^ 0) with 1. rewrite N.mod_1_r. reflexivity.
+  - rewrite <- N.add_1_r, nrange_succ, map_app, val_app, IH. cbn [map val_of_bytes_le].
+    assert (lenw (map (fun j => trunc 8 (N.shiftr x (8 * j))) (nrange k)) = k) as ->.
+    { unfold lenw. rewrite map_length, nrange_length. lia. }
+    rewrite N.pow_add_r, N.pow_1_r, N.mod_mul_r by (try apply N.neq_0_lt_0, pow256_pos; lia).
+    rewrite trunc_mod, N.shiftr_div_pow2, <- pow256. change (2 ^ 8) with 256. lia.
+Qed.
+
+Lemma bytes_le_length a : lenw (bytes_le a) = (blen a + 7) / 8.
+Proof. unfold bytes_le, lenw. rewrite map_length, nrange_length. lia. Qed.
+
+Lemma val_of_bytes_le_bytes_le a : bval a < 2 ^ blen a -> val_of_bytes_le (bytes_le a) = bval a.
+Proof.
+  intros H. unfold bytes_le. rewrite val_bytes_of. apply N.mod_small.
+  eapply N.lt_le_trans; [exact H|]. rewrite pow256. apply pow2_le. lia.
+Qed.
+
+Lemma to_vec_from_bytes_value a e : bval a < 2 ^ blen a ->
+  bytes_value (match e with Little => bytes_le a | Big => rev (bytes_le a) end) e = bval a.
+Proof.
+  intros H. unfold bytes_value. destruct e; rewrite ?rev_involutive; apply val_of_bytes_le_bytes_le; assumption.
+Qed.
+
+(* ------------------------------------------------------------------ to_vec *)
+
+Lemma omap_list_ok {A B} (f : A -> outcome B) (g : A -> B) l :
+  (forall a, In a l -> f a = Ok (g a)) -> omap_list f l = Ok (map g l).
+Proof.
+  induction l as [|a r IH]; intros H.
+  - reflexivity.
+  - cbn [omap_list map]. rewrite (H a) by (left; reflexivity). cbn [bind].
+    rewrite IH by (intros; apply H; right; assumption). reflexivity.
+Qed.
+
+Lemma byte_of_raw w bu d i :
+  0 < bu -> w = 8 * bu -> words_ok w d ->
+  wrap 8 (shrw (getw d (i / bu)) ((i mod bu) * 8)) = trunc 8 (N.shiftr (raw w d) (8 * i)).
+Proof.
+  intros Hbu Hw Hd. assert (0 < w) as Hw0 by lia.
+  apply N.bits_inj. intro b.
+  rewrite wrap_testbit, trunc_testbit, shrw_testbit, shiftr_testbit.
+  destruct (N.ltb_spec b 8) as [Hb|Hb]; [|reflexivity]. cbn [andb].
+  rewrite raw_testbit by assumption.
+  pose proof (div_mod_eq i bu) as Ei. pose proof (mod_lt' i bu Hbu) as Hm.
+  destruct (divmod_unique (b + 8 * i) w (i / bu) (b + i mod bu * 8) Hw0) as [-> ->]; [nia|lia|reflexivity].
+Qed.
+
+Lemma v_to_vec_spec w v e :
+  0 < w -> w mod 8 = 0 -> canon_wv w v ->
+  v_to_vec w v e = Ok (match e with
+                       | Little => bytes_le (mkbv (wl v) (raw w (wd v)))
+                       | Big => rev (bytes_le (mkbv (wl v) (raw w (wd v))))
+                       end).
+Proof.
+  intros Hw H8 (Hd & Hl & _). unfold v_to_vec.
+  set (bu := w / 8). assert (w = 8 * bu) as Ew by (unfold bu; lia). assert (0 < bu) as Hbu by lia.
+  rewrite (omap_list_ok _ (fun i => wrap 8 (shrw (getw (wd v) (i / bu)) ((i mod bu) * 8)))).
+  - cbn [bind]. unfold bytes_le. cbn [blen bval].
+    assert (map (fun i => wrap 8 (shrw (getw (wd v) (i / bu)) (i mod bu * 8))) (nrange ((wl v + 7) / 8)) =
+            map (fun j => trunc 8 (N.shiftr (raw w (wd v)) (8 * j))) (nrange ((wl v + 7) / 8))) as ->.
+    { apply map_ext. intros i. apply byte_of_raw; assumption. }
+    reflexivity.
+  - intros i Hi. apply In_nrange in Hi. rewrite geto_ok; [reflexivity|].
+    apply N.div_lt_upper_bound; [lia|]. nia.
+Qed.
+
+(* ------------------------------------------------------------------ enumerations and folds *)
+
+Fixpoint enumf (k : N) (l : list N) : list (N * N) :=
+  match l with [] => [] | b :: r => (k, b) :: enumf (k + 1) r end.
+
+Lemma enum_enumf_gen l : forall k : nat,
+  combine (map N.of_nat (seq k (length l))) l = enumf (N.of_nat k) l.
+Proof.
+  induction l as [|b r IH]; intros k; [reflexivity|].
+  cbn [length seq map combine enumf]. f_equal. rewrite IH. f_equal. lia.
+Qed.
+
+Lemma enum_enumf l : enum l = enumf 0 l.
+Proof. unfold enum, nrange, lenw. rewrite Nat2N.id. apply (enum_enumf_gen l 0). Qed.
+
+Lemma enumf_shift l : forall k, enumf (k + 1) l = map (fun p => (fst p + 1, snd p)) (enumf k l).
+Proof.
+  induction l as [|b r IH]; intros k; [reflexivity|].
+  cbn [enumf map fst snd]. f_equal. apply IH.
+Qed.
+
+Lemma enumf_app l1 l2 : forall k, enumf k (l1 ++ l2) = enumf k l1 ++ enumf (k + lenw l1) l2.
+Proof.
+  induction l1 as [|b r IH]; intros k.
+  - cbn [app enumf]. rewrite lenw_nil, N.add_0_r. reflexivity.
+  - cbn [app enumf]. rewrite IH, lenw_cons. f_equal. f_equal. f_equal. lia.
+Qed.
+
+Lemma In_enumf l : forall k p, In p (enumf k l) -> k <= fst p /\ fst p < k + lenw l.
+Proof.
+  induction l as [|b r IH]; intros k p H; [destruct H|].
+  cbn [enumf] in H. rewrite lenw_cons. destruct H as [<-|H].
+  - cbn [fst]. lia.
+  - apply IH in H. lia.
+Qed.
+
+Lemma lenw_rev l : lenw (rev l) = lenw l.
+Proof. unfold lenw. rewrite rev_length. reflexivity. Qed.
+
+Lemma rev_enumf l :
+  rev (enumf 0 l) = map (fun p => (lenw l - 1 - fst p, snd p)) (enumf 0 (rev l)).
+Proof.
+  induction l as [|b r IH]; [reflexivity|].
+  cbn [enumf rev]. rewrite enumf_shift, <- map_rev, IH.
+  rewrite enumf_app, map_app, map_map. cbn [enumf map fst snd]. rewrite N.add_0_l, lenw_rev.
+  f_equal.
+  - apply map_ext_in. intros p Hp. apply In_enumf in Hp. rewrite lenw_rev in Hp. rewrite lenw_cons.
+    cbn [fst snd]. f_equal. lia.
+  - rewrite lenw_cons. f_equal. f_equal. lia.
+Qed.
+
+Lemma fold_left_rev {A B} (f : A -> B -> A) l a :
+  fold_left f (rev l) a = fold_right (fun b a => f a b) a l.
+Proof.
+  induction l as [|x r IH]; [reflexivity|].
+  cbn [rev fold_right]. rewrite fold_left_app, IH. reflexivity.
+Qed.
+
+Lemma fold_left_as_right {A B} (f : A -> B -> A) l a :
+  fold_left f l a = fold_right (fun b a => f a b) a (rev l).
+Proof. rewrite <- fold_left_rev, rev_involutive. reflexivity. Qed.
+
+Lemma fold_right_map' {A B C} (f : B -> C -> C) (g : A -> B) l c :
+  fold_right f c (map g l) = fold_right (fun a c => f (g a) c) c l.
+Proof. induction l as [|x r IH]; [reflexivity|]. cbn [map fold_right]. rewrite IH. reflexivity. Qed.
+
+Lemma fold_right_ext_in {A B} (f g : A -> B -> B) l b :
+  (forall a, In a l -> forall x, f a x = g a x) -> fold_right f b l = fold_right g b l.
+Proof.
+  induction l as [|x r IH]; intros H; [reflexivity|].
+  cbn [fold_right]. rewrite IH by (intros; apply H; right; assumption).
+  apply H. left. reflexivity.
+Qed.
+
+(* ------------------------------------------------------------------ bytes shifted into words *)
+
+Lemma div256 b V : b < 256 -> (b + 256 * V) / 256 = V /\ (b + 256 * V) mod 256 = b.
+Proof. intros H. apply divmod_unique; lia. Qed.
+
+Lemma val_div_succ b V m : b < 256 -> (b + 256 * V) / 256 ^ (m + 1) = V / 256 ^ m.
+Proof.
+  intros H. pose proof (pow256_pos m).
+  rewrite pow256_succ, <- N.div_div by lia. destruct (div256 b V H) as [-> _]. reflexivity.
+Qed.
+
+Lemma val_mod_succ b V m : b < 256 -> (b + 256 * V) mod 256 ^ (m + 1) = b + 256 * (V mod 256 ^ m).
+Proof.
+  intros H. pose proof (pow256_pos m).
+  rewrite pow256_succ, N.mod_mul_r by lia. destruct (div256 b V H) as [-> ->]. reflexivity.
+Qed.
+
+Section Core.
+Variables w bu : N.
+Hypothesis Hbu : 0 < bu.
+Hypothesis Ew : w = 8 * bu.
+
+Definition pushw (x b : N) : N := N.lor (shlw w x 8) b.
+
+Lemma pushw_spec x b : x < 256 ^ (bu - 1) -> b < 256 -> pushw x b = 256 * x + b.
+Proof.
+  intros Hx Hb. unfold pushw, shlw. rewrite N.shiftl_mul_pow2. change (2 ^ 8) with 256.
+  rewrite wrap_small.
+  - rewrite N.lor_comm. change 256 with (2 ^ 8) at 1. rewrite (N.mul_comm x).
+    rewrite lor_disjoint_add by assumption. lia.
+  - replace w with (8 * (bu - 1 + 1)) by lia. rewrite <- pow256, pow256_succ. lia.
+Qed.
+
+Lemma lenw_fold_push (h : N -> N) ps d :
+  lenw (fold_right (fun (p : N * N) acc => push_byte w acc (h (fst p)) (snd p)) d ps) = lenw d.
+Proof.
+  induction ps as [|p r IH]; [reflexivity|]. cbn [fold_right]. unfold push_byte at 1.
+  rewrite lenw_setw. assumption.
+Qed.
+
+Lemma getw_fold_push (h : N -> N) ps d j :
+  j < lenw d ->
+  getw (fold_right (fun (p : N * N) acc => push_byte w acc (h (fst p)) (snd p)) d ps) j =
+  fold_right (fun (p : N * N) x => if h (fst p) =? j then pushw x (snd p) else x) (getw d j) ps.
+Proof.
+  intros Hj. induction ps as [|p r IH]; [reflexivity|]. cbn [fold_right]. unfold push_byte at 1.
+  rewrite getw_setw, lenw_fold_push.
+  destruct (N.eqb_spec (h (fst p)) j) as [->|Hne]; cbn [andb].
+  - apply N.ltb_lt in Hj. rewrite Hj, IH. reflexivity.
+  - assumption.
+Qed.
+
+Lemma wordfold lo (c : N -> bool) l : bytes_ok l -> forall k,
+  (forall i, k <= i -> i < k + lenw l -> c i = (lo <=? i) && (i <? lo + bu)) ->
+  fold_right (fun (p : N * N) x => if c (fst p) then pushw x (snd p) else x) 0 (enumf k l) =
+  (val_of_bytes_le l / 256 ^ (lo - k)) mod 256 ^ (lo + bu - N.max k lo).
+Proof.
+  induction 1 as [|b r Hb Hr IH]; intros k Hc.
+  - cbn [enumf fold_right val_of_bytes_le].
+    pose proof (pow256_pos (lo - k)). pose proof (pow256_pos (lo + bu - N.max k lo)).
+    rewrite N.div_0_l, N.mod_0_l by lia. reflexivity.
+  - cbn [enumf fold_right fst snd val_of_bytes_le]. rewrite lenw_cons in Hc.
+    rewrite IH by (intros; apply Hc; lia).
+    rewrite (Hc k) by lia.
+    destruct (N.leb_spec lo k) as [H1|H1]; cbn [andb].
+    + destruct (N.ltb_spec k (lo + bu)) as [H2|H2].
+      * replace (lo - (k + 1)) with 0 by lia. replace (lo - k) with 0 by lia.
+        change (256 ^ 0) with 1. rewrite !N.div_1_r.
+        replace (N.max (k + 1) lo) with (k + 1) by lia. replace (N.max k lo) with k by lia.
+        replace (lo + bu - k) with (lo + bu - (k + 1) + 1) by lia.
+        rewrite val_mod_succ by assumption. rewrite pushw_spec; [lia| |assumption].
+        pose proof (pow256_pos (lo + bu - (k + 1))).
+        eapply N.lt_le_trans; [apply N.mod_lt; lia|]. apply N.pow_le_mono_r; lia.
+      * replace (lo + bu - N.max (k + 1) lo) with 0 by lia.
+        replace (lo + bu - N.max k lo) with 0 by lia.
+        change (256 ^ 0) with 1. rewrite !N.mod_1_r. reflexivity.
+    + replace (N.max (k + 1) lo) with lo by lia. replace (N.max k lo) with lo by lia.
+      replace (lo - k) with (lo - (k + 1) + 1) by lia.
+      rewrite val_div_succ by assumption. reflexivity.
+Qed.
+
+Lemma div_eqb_window i j : (i / bu =? j) = (j * bu <=? i) && (i <? j * bu + bu).
+Proof.
+  pose proof (div_mod_eq i bu) as E. pose proof (mod_lt' i bu Hbu) as Hm.
+  destruct (N.eqb_spec (i / bu) j) as [Heq|Hne].
+  - subst j. symmetry. apply andb_true_iff. split; [apply N.leb_le|apply N.ltb_lt]; nia.
+  - symmetry. apply andb_false_iff.
+    destruct (N.lt_ge_cases (i / bu) j).
+    + left. apply N.leb_gt. nia.
+    + right. apply N.ltb_ge. assert (j + 1 <= i / bu) by lia. nia.
+Qed.
+
+Lemma core n (h : N -> N) l :
+  bytes_ok l -> lenw l <= bu * n -> (forall i, i < lenw l -> h i = i / bu) ->
+  let D := fold_right (fun (p : N * N) acc => push_byte w acc (h (fst p)) (snd p)) (zerosw n) (enumf 0 l) in
+  words_ok w D /\ lenw D = n /\ raw w D = val_of_bytes_le l.
+Proof.
+  intros Hl Hn Hh D. assert (0 < w) as Hw by lia.
+  assert (lenw D = n) as HL by (unfold D; rewrite lenw_fold_push; apply lenw_zerosw).
+  assert (forall j, j < n -> getw D j = (val_of_bytes_le l / 2 ^ (w * j)) mod 2 ^ w) as HG.
+  { intros j Hj. unfold D. rewrite getw_fold_push by (rewrite lenw_zerosw; assumption).
+    rewrite getw_zerosw.
+    rewrite (wordfold (j * bu) (fun i => h i =? j) l Hl 0).
+    - rewrite N.sub_0_r. replace (j * bu + bu - N.max 0 (j * bu)) with bu by lia.
+      rewrite !pow256, Ew. replace (8 * (j * bu)) with (8 * bu * j) by lia. reflexivity.
+    - intros i _ Hi. rewrite Hh by lia. apply div_eqb_window. }
+  assert (words_ok w D) as HD.
+  { apply words_ok_getw. intros j Hj. rewrite HG by lia. apply N.mod_lt, pow2_ne0. }
+  split; [assumption|]. split; [assumption|].
+  apply N.bits_inj. intro i. rewrite raw_testbit by assumption.
+  pose proof (div_mod_eq i w) as Ei. pose proof (mod_lt' i w Hw) as Hm.
+  destruct (N.lt_ge_cases (i / w) n) as [Hlt|Hge].
+  - rewrite HG by assumption. rewrite mod_pow2_testbit, div_pow2_testbit.
+    apply N.ltb_lt in Hm. rewrite Hm. cbn [andb]. f_equal. lia.
+  - rewrite getw_high by lia. rewrite N.bits_0. symmetry.
+    apply (testbit_high _ (8 * lenw l)).
+    + rewrite <- pow256. apply val_lt. assumption.
+    + nia.
+Qed.
+
+(* little-endian style loop: bytes taken last to first, byte i goes to word i / bu *)
+Lemma fold_little n (h : N -> N) l :
+  bytes_ok l -> lenw l <= bu * n -> (forall i, i < lenw l -> h i = i / bu) ->
+  let D := fold_left (fun d (p : N * N) => push_byte w d (h (fst p)) (snd p)) (rev (enum l)) (zerosw n) in
+  words_ok w D /\ lenw D = n /\ raw w D = val_of_bytes_le l.
+Proof.
+  intros Hl Hn Hh. rewrite fold_left_rev, enum_enumf. apply core; assumption.
+Qed.
+
+(* big-endian style loop: bytes taken first to last, byte i goes to word (len - 1 - i) / bu *)
+Lemma fold_big n (g : N -> N) l :
+  bytes_ok l -> lenw l <= bu * n -> (forall i, i < lenw l -> g i = (lenw l - 1 - i) / bu) ->
+  let D := fold_left (fun d (p : N * N) => push_byte w d (g (fst p)) (snd p)) (enum l) (zerosw n) in
+  words_ok w D /\ lenw D = n /\ raw w D = val_of_bytes_le (rev l).
+Proof.
+  intros Hl Hn Hg. rewrite fold_left_as_right, enum_enumf, rev_enumf, fold_right_map'. cbn [fst snd].
+  apply (core n (fun i => g (lenw l - 1 - i)) (rev l)).
+  - apply Forall_rev. assumption.
+  - rewrite lenw_rev. assumption.
+  - intros i Hi. rewrite lenw_rev in Hi. rewrite Hg by lia. f_equal. lia.
+Qed.
+
+End Core.
+
+(* ------------------------------------------------------------------ from_bytes *)
+
+Lemma shlw8_8 x : shlw 8 x 8 = 0.
+Proof.
+  apply N.bits_inj. intro i. rewrite shlw_testbit, N.bits_0.
+  destruct (N.ltb_spec i 8); destruct (N.leb_spec 8 i); try reflexivity; lia.
+Qed.
+
+Lemma push_byte8 d j b : push_byte 8 d j b = setw d j b.
+Proof. unfold push_byte. rewrite shlw8_8, N.lor_0_l. reflexivity. Qed.
+
+Lemma fold_left_ext {A B} (f g : A -> B -> A) l a :
+  (forall a b, f a b = g a b) -> fold_left f l a = fold_left g l a.
+Proof.
+  intros H. revert a. induction l as [|x r IH]; intros a; [reflexivity|].
+  cbn [fold_left]. rewrite H. apply IH.
+Qed.
+
+Lemma bytes_value_lt l e : bytes_ok l -> bytes_value l e < 2 ^ (8 * lenw l).
+Proof.
+  intros H. rewrite <- pow256. unfold bytes_value. destruct e.
+  - apply val_lt. assumption.
+  - rewrite <- lenw_rev. apply val_lt. apply Forall_rev. assumption.
+Qed.
+
+Lemma f_from_bytes_spec w n bytes e :
+  0 < w -> w mod 8 = 0 -> bytes_ok bytes -> 8 * lenw bytes <= w * n ->
+  exists v, f_from_bytes w n bytes e = Ok v /\ canon_wv w v /\ lenw (wd v) = n /\
+            wl v = 8 * lenw bytes /\ raw w (wd v) = bytes_value bytes e.
+Proof.
+  intros Hw H8 Hb Hn. unfold f_from_bytes.
+  assert (w * n <? lenw bytes * 8 = false) as -> by (apply N.ltb_ge; lia).
+  set (bu := w / 8). assert (w = 8 * bu) as Ew by (unfold bu; lia). assert (0 < bu) as Hbu by lia.
+  assert (lenw bytes <= bu * n) as Hn' by nia.
+  eexists. split; [reflexivity|]. cbn [wd wl].
+  match goal with |- canon_wv w (mkwv ?d _) /\ _ => set (D := d) end.
+  assert (words_ok w D /\ lenw D = n /\ raw w D = bytes_value bytes e) as (HD & HL & HR).
+  { unfold D, bytes_value. destruct e.
+    - assert ((if bu =? 1
+               then fold_left (fun d (p : N * N) => setw d (fst p) (snd p)) (rev (enum bytes)) (zerosw n)
+               else fold_left (fun d (p : N * N) => push_byte w d (fst p / bu) (snd p)) (rev (enum bytes)) (zerosw n))
+              = fold_left (fun d (p : N * N) => push_byte w d (fst p / bu) (snd p)) (rev (enum bytes)) (zerosw n)) as ->.
+      { destruct (N.eqb_spec bu 1) as [E1|_]; [|reflexivity].
+        assert (w = 8) as -> by lia. rewrite E1. apply fold_left_ext. intros d p.
+        rewrite push_byte8, N.div_1_r. reflexivity. }
+      apply (fold_little w bu Hbu Ew n (fun i => i / bu)); auto.
+    - assert ((if bu =? 1
+               then fold_left (fun d (p : N * N) => setw d (lenw bytes - 1 - fst p) (snd p)) (enum bytes) (zerosw n)
+               else fold_left (fun d (p : N * N) => push_byte w d ((lenw bytes - 1 - fst p) / bu) (snd p)) (enum bytes) (zerosw n))
+              = fold_left (fun d (p : N * N) => push_byte w d ((lenw bytes - 1 - fst p) / bu) (snd p)) (enum bytes) (zerosw n)) as ->.
+      { destruct (N.eqb_spec bu 1) as [E1|_]; [|reflexivity].
+        assert (w = 8) as -> by lia. rewrite E1. apply fold_left_ext. intros d p.
+        rewrite push_byte8, N.div_1_r. reflexivity. }
+      apply (fold_big w bu Hbu Ew n (fun i => (lenw bytes - 1 - i) / bu)); auto. }
+  split; [|split; [assumption|split; [lia|assumption]]].
+  unfold canon_wv. cbn [wd wl]. split; [assumption|]. split; [lia|].
+  rewrite HR. replace (lenw bytes * 8) with (8 * lenw bytes) by lia. apply bytes_value_lt. assumption.
+Qed.
+
+Lemma d_fold l :
+  bytes_ok l ->
+  words_ok 64 (fold_left (fun d (p : N * N) =>
+                 push_byte 64 d (cfbyl_d (lenw l) - 1 - (fst p + (8 - lenw l mod 8) mod 8) / 8) (snd p))
+               (enum l) (zerosw (cfbyl_d (lenw l)))) /\
+  lenw (fold_left (fun d (p : N * N) =>
+                 push_byte 64 d (cfbyl_d (lenw l) - 1 - (fst p + (8 - lenw l mod 8) mod 8) / 8) (snd p))
+               (enum l) (zerosw (cfbyl_d (lenw l)))) = cfbyl_d (lenw l) /\
+  raw 64 (fold_left (fun d (p : N * N) =>
+                 push_byte 64 d (cfbyl_d (lenw l) - 1 - (fst p + (8 - lenw l mod 8) mod 8) / 8) (snd p))
+               (enum l) (zerosw (cfbyl_d (lenw l)))) = val_of_bytes_le (rev l).
+Proof.
+  intros Hl.
+  apply (fold_big 64 8 ltac:(lia) eq_refl (cfbyl_d (lenw l))
+           (fun i => cfbyl_d (lenw l) - 1 - (i + (8 - lenw l mod 8) mod 8) / 8)); [assumption| |].
+  - unfold cfbyl_d. lia.
+  - intros i Hi. unfold cfbyl_d. lia.
+Qed.
+
+Lemma d_from_bytes_spec bytes e :
+  bytes_ok bytes ->
+  canon_wv 64 (d_from_bytes bytes e) /\ wl (d_from_bytes bytes e) = 8 * lenw bytes /\
+  lenw (wd (d_from_bytes bytes e)) = cfbyl_d (lenw bytes) /\
+  raw 64 (wd (d_from_bytes bytes e)) = bytes_value bytes e.
+Proof.
+  intros Hb.
+  assert (words_ok 64 (wd (d_from_bytes bytes e)) /\
+          lenw (wd (d_from_bytes bytes e)) = cfbyl_d (lenw bytes) /\
+          raw 64 (wd (d_from_bytes bytes e)) = bytes_value bytes e) as (HD & HL & HR).
+  { unfold d_from_bytes, W64, bytes_value. cbn [wd]. destruct e.
+    - pose proof (d_fold (rev bytes) (Forall_rev Hb)) as H.
+      rewrite lenw_rev, rev_involutive in H. exact H.
+    - exact (d_fold bytes Hb). }
+  assert (wl (d_from_bytes bytes e) = 8 * lenw bytes) as HW by (unfold d_from_bytes; cbn [wl]; lia).
+  split; [|split; [assumption|split; assumption]].
+  unfold canon_wv. split; [assumption|]. rewrite HL, HW, HR. split.
+  - unfold cfbyl_d. lia.
+  - apply bytes_value_lt. assumption.
+Qed.
+
+(* ------------------------------------------------------------------ read *)
+
+Lemma lenw_firstn k l : k <= lenw l -> lenw (firstn (N.to_nat k) l) = k.
+Proof. unfold lenw. rewrite firstn_length. lia. Qed.
+
+Lemma bytes_ok_firstn k l : bytes_ok l -> bytes_ok (firstn k l).
+Proof.
+  intros H. rewrite <- (firstn_skipn k l) in H. apply Forall_app in H. apply H.
+Qed.
+
+Lemma f_read_spec w n reader len e :
+  0 < w -> w mod 8 = 0 -> bytes_ok reader -> len <= w * n -> (len + 7) / 8 <= lenw reader ->
+  exists v, f_read w n reader len e = Ok (v, skipn (N.to_nat ((len + 7) / 8)) reader) /\
+            canon_wv w v /\ lenw (wd v) = n /\ wl v = len /\
+            raw w (wd v) = bytes_value (firstn (N.to_nat ((len + 7) / 8)) reader) e mod 2 ^ len.
+Proof.
+  intros Hw H8 Hr Hlen Hnb. unfold f_read.
+  assert (w * n <? len = false) as -> by (apply N.ltb_ge; assumption).
+  assert (lenw reader <? (len + 7) / 8 = false) as -> by (apply N.ltb_ge; assumption).
+  destruct (f_from_bytes_spec w n (firstn (N.to_nat ((len + 7) / 8)) reader) e Hw H8)
+    as (bv & E & (Hd & _ & _) & HL & _ & HR).
+  - apply bytes_ok_firstn. assumption.
+  - rewrite lenw_firstn by assumption.
+    assert (w = 8 * (w / 8)) as Ew by lia. rewrite Ew in Hlen |- *. lia.
+  - rewrite E. eexists. split; [reflexivity|]. cbn [wd wl].
+    assert (raw w (mod2n w (wd bv) len) =
+            bytes_value (firstn (N.to_nat ((len + 7) / 8)) reader) e mod 2 ^ len) as HM.
+    { rewrite raw_mod2n by assumption. rewrite HR. reflexivity. }
+    split; [|split; [rewrite lenw_mod2n; assumption|split; [reflexivity|assumption]]].
+    unfold canon_wv. cbn [wd wl]. split; [apply words_ok_mod2n; assumption|].
+    split; [rewrite lenw_mod2n, HL; assumption|].
+    rewrite HM. apply N.mod_lt, pow2_ne0.
+Qed.
+
+Lemma lenw_upd_last f d : lenw (upd_last f d) = lenw d.
+Proof.
+  induction d as [|x r IH]; [reflexivity|].
+  destruct r as [|y r]; [reflexivity|].
+  change (upd_last f (x :: y :: r)) with (x :: upd_last f (y :: r)).
+  rewrite !lenw_cons in *. rewrite IH. reflexivity.
+Qed.
+
+Lemma getw_upd_last f d i :
+  getw (upd_last f d) i = if i + 1 =? lenw d then f (getw d i) else getw d i.
+Proof.
+  revert i. induction d as [|x r IH]; intros i.
+  - cbn [upd_last]. rewrite getw_nil, lenw_nil. destruct (N.eqb_spec (i + 1) 0); [lia|reflexivity].
+  - destruct r as [|y r].
+    + cbn [upd_last]. rewrite lenw_cons, lenw_nil.
+      destruct (N.eqb_spec (i + 1) (0 + 1)) as [Hi|Hi].
+      * assert (i = 0) as -> by lia. reflexivity.
+      * rewrite !getw_cons_S by lia. rewrite !getw_nil. reflexivity.
+    + change (upd_last f (x :: y :: r)) with (x :: upd_last f (y :: r)).
+      rewrite (lenw_cons x).
+      destruct (N.eq_dec i 0) as [->|Hi0].
+      * rewrite !getw_cons_0. rewrite lenw_cons.
+        destruct (N.eqb_spec (0 + 1) (lenw r + 1 + 1)); [lia|reflexivity].
+      * rewrite !(getw_cons_S x) by lia. rewrite IH.
+        destruct (N.eqb_spec (i - 1 + 1) (lenw (y :: r))); destruct (N.eqb_spec (i + 1) (lenw (y :: r) + 1));
+          try reflexivity; lia.
+Qed.
+
+Lemma raw_mask_last d len :
+  words_ok 64 d -> lenw d = cfbl_d len ->
+  raw 64 (upd_last (fun l => N.land l (maskw 64 (lastbits 64 len))) d) = raw 64 d mod 2 ^ len.
+Proof.
+  intros Hd HL.
+  assert (words_ok 64 (upd_last (fun l => N.land l (maskw 64 (lastbits 64 len))) d)) as Hd'.
+  { apply words_ok_getw. intros i _. rewrite getw_upd_last.
+    destruct (i + 1 =? lenw d); [|apply getw_ok; assumption].
+    apply lt_pow2_of_bits. intros b Hb. rewrite N.land_spec.
+    rewrite (testbit_high (getw d i) 64 b); [reflexivity|apply getw_ok; assumption|assumption]. }
+  apply N.bits_inj. intro i.
+  rewrite mod_pow2_testbit, !raw_testbit by (assumption || lia).
+  rewrite getw_upd_last. unfold cfbl_d, cfbyl_d in HL.
+  destruct (N.eqb_spec (i / 64 + 1) (lenw d)) as [He|Hne].
+  - rewrite N.land_spec, maskw_testbit.
+    assert (i mod 64 <? 64 = true) as -> by (apply N.ltb_lt; lia). rewrite andb_true_r.
+    assert (len <> 0) as Hl0 by lia.
+    unfold lastbits, wsub1. apply N.eqb_neq in Hl0. rewrite Hl0. apply N.eqb_neq in Hl0.
+    assert ((i mod 64 <? (len - 1) mod 64 + 1) = (i <? len)) as ->.
+    { destruct (N.ltb_spec (i mod 64) ((len - 1) mod 64 + 1)); destruct (N.ltb_spec i len); try reflexivity; lia. }
+    apply andb_comm.
+  - destruct (N.lt_ge_cases (i / 64 + 1) (lenw d)) as [Hlt|Hge].
+    + assert (i <? len = true) as -> by (apply N.ltb_lt; lia). reflexivity.
+    + rewrite getw_high by lia. rewrite N.bits_0. symmetry. apply andb_false_r.
+Qed.
+
+Lemma d_read_spec reader len e :
+  bytes_ok reader -> (len + 7) / 8 <= lenw reader ->
+  exists v, d_read reader len e = Ok (v, skipn (N.to_nat ((len + 7) / 8)) reader) /\
+            canon_wv 64 v /\ wl v = len /\
+            raw 64 (wd v) = bytes_value (firstn (N.to_nat ((len + 7) / 8)) reader) e mod 2 ^ len.
+Proof.
+  intros Hr Hnb. unfold d_read.
+  assert (lenw reader <? (len + 7) / 8 = false) as -> by (apply N.ltb_ge; assumption).
+  destruct (d_from_bytes_spec (firstn (N.to_nat ((len + 7) / 8)) reader) e (bytes_ok_firstn _ _ Hr))
+    as ((Hd & _ & _) & _ & HL & HR).
+  rewrite lenw_firstn in HL by assumption.
+  eexists. split; [reflexivity|]. cbn [wd wl]. unfold W64.
+  pose proof (raw_mask_last _ len Hd HL) as HM. rewrite HR in HM.
+  split; [|split; [reflexivity|assumption]].
+  unfold canon_wv. cbn [wd wl]. split; [|split].
+  - apply words_ok_getw. intros i _. rewrite getw_upd_last.
+    destruct (i + 1 =? _); [|apply getw_ok; assumption].
+    apply lt_pow2_of_bits. intros b Hb. rewrite N.land_spec.
+    rewrite (testbit_high (getw _ i) 64 b); [reflexivity|apply getw_ok; assumption|assumption].
+  - rewrite lenw_upd_last, HL. unfold cfbyl_d. lia.
+  - rewrite HM. apply N.mod_lt, pow2_ne0.
+Qed.
